@@ -14,6 +14,8 @@ let () =
            | "pos" ->
              if String.length line > 2 && String.sub line 0 2 = "P " then Poschk.check_pline (Poschk.parse_pline line)
              else if String.length line > 8 && String.sub line 0 8 = "REJECTED" then mismatch "replay_rejected" line
+           | "coqcases" ->
+             if String.length line > 2 && String.sub line 0 2 = "P " then Poschk.emit_coqcase (Poschk.parse_pline line)
            | "mirror" ->
              if String.length line >= 3 && String.sub line 0 2 = "M " then begin
                let k = String.sub line 2 1 in
@@ -29,4 +31,4 @@ let () =
        end
      done
    with End_of_file -> ());
-  if kind <> "fengen" && kind <> "sangen" then finish ()
+  if kind <> "fengen" && kind <> "sangen" && kind <> "coqcases" then finish ()
